@@ -20,7 +20,7 @@ RULE = (
     "with complex / container arguments or order 2; distinct by cell."
 )
 
-FAMILIES = ["elementwise", "matmul", "broadcast", "complex", "container", "scalar"]
+FAMILIES = ["elementwise", "matmul", "broadcast", "complex", "container", "scalar", "dict_complex"]
 DEFECTS = ["none", "factor", "sign", "transpose", "missing_reduction", "missing_conj", "drop_imag", "one_entry", "second_order_only"]
 
 
@@ -152,6 +152,46 @@ def build(family, shape, defect, eps, where, vseed):
         defvjp(f, vjp)
         defjvp(f, jvp)
         return f, (complex(x0) if sh == () else x0)
+    if family == "dict_complex":
+        # a dict argument with a complex and a real entry: f(d) = d["z"] * d["z"] * cc + d["r"]
+        sh = shape or (2,)
+        (cr, zr, zi, r0), _ = values.generic(vseed, [sh, sh, sh, sh], 0.4, 1.6)
+        cc = cr + 0.5j
+        z0 = zr + 1j * (zi - 1.0)
+        from autograd.builtins import dict as ab_dict
+
+        @primitive
+        def f(d):
+            return d["z"] * d["z"] * cc + d["r"]
+
+        def vjp(ans, d):
+            z = d["z"]
+
+            def r(g):
+                gz = g * 2 * z * cc
+                if dv == "missing_conj":
+                    gz = g * anp.conj(2 * z * cc)
+                elif dv == "drop_imag":
+                    gz = anp.real(g) * (2 * z * cc)
+                else:
+                    gz = apply_defect(dv, gz)
+                return ab_dict({"z": gz, "r": anp.real(g)})
+            return r
+
+        def jvp(g, ans, d):
+            z = d["z"]
+            tz = g["z"] * 2 * z * cc
+            if dj == "missing_conj":
+                tz = anp.conj(g["z"]) * 2 * z * cc
+            elif dj == "drop_imag":
+                tz = anp.real(g["z"]) * 2 * z * cc
+            else:
+                tz = apply_defect(dj, tz)
+            return tz + g["r"]
+
+        defvjp(f, vjp)
+        defjvp(f, jvp)
+        return f, {"z": z0, "r": r0}
     # container argument: f((a, b)) = sin(a) * b  -> array
     sh = shape or (2,)
     (a0, b0), _ = values.generic(vseed, [sh, sh], 0.4, 1.6)
@@ -181,11 +221,13 @@ def applicable(family, defect, where, order):
     if defect == "missing_reduction":
         return family == "broadcast"
     if defect in ("missing_conj", "drop_imag"):
-        return family == "complex"
+        return family in ("complex", "dict_complex")
     if defect == "second_order_only":
         return family in ("elementwise", "scalar", "matmul") and order == 2
     if defect == "one_entry":
         return family in ("elementwise", "matmul", "broadcast", "container")
+    if family == "dict_complex":
+        return defect in ("factor", "sign", "missing_conj", "drop_imag")
     return True
 
 
@@ -233,6 +275,16 @@ def cell_body(trials, c):
             except AssertionError as e:
                 rejected += 1
                 first_err = first_err or str(e)[:160]
+            except NotImplementedError as e:
+                if "not defined" in str(e) and ("JVP of" in str(e) or "VJP of" in str(e)):
+                    # autograd has no rule for an operation the requested mode/order needs (e.g. forward mode through a dict
+                    # constructor): the cell is not applicable - loud, and not a verdict of the checker
+                    onp.random.set_state(state)
+                    from ..case import raised as _raised
+
+                    return _raised(e, "check_grads", sample=sample)
+                rejected += 1
+                other_exc = other_exc or describe_exc(e)
             except Exception as e:
                 if not from_autograd(e):
                     raise
@@ -247,7 +299,7 @@ def cell_body(trials, c):
         if rejected:
             return fail("false_rejection", f"check_grads rejected a correct primitive in {rejected}/{trials} trials: {first_err or other_exc}",
                         f"C18|false_rejection|{family}", sample=sample)
-        return ok(nontrivial=family in ("complex", "container") or order == 2, key=cell, labels=labels, sample=sample)
+        return ok(nontrivial=family in ("complex", "container", "dict_complex") or order == 2, key=cell, labels=labels, sample=sample)
     misses = trials - rejected
     tail = binom_tail(trials, misses) if misses else 1.0
     sample["misses"] = misses
